@@ -165,7 +165,7 @@ Ltac t_ID :=
   intros;
   lazymatch goal with
   | |- ID (upd_worker _ _ _) => apply ID_upd_worker; [intro; reflexivity | assumption]
-  | |- ID (upd_scq _ _ _) => apply ID_upd_scq; [intro; reflexivity | assumption]
+  | |- ID (upd_scq _ _ _) => apply ID_upd_scq; [let q := fresh "q" in intro q; first [reflexivity | (destruct (existsb _ (q_drains q)); reflexivity)] | assumption]
   | |- ID (upd_inv _ _ _) => apply ID_upd_inv; [intro; reflexivity | assumption]
   | |- ID (set s_invs (fun l => l ++ [(_, new_inv _)]) _) => apply ID_invs_new; assumption
   | |- _ => (eapply ID_frame; [| |eassumption]); frame_eq
@@ -217,7 +217,7 @@ Ltac t_KW :=
   intros;
   lazymatch goal with
   | |- KW (upd_worker _ _ _) => apply KW_upd_worker; [intro; first [right; split; reflexivity | left; reflexivity] | assumption]
-  | |- KW (upd_scq _ _ _) => apply KW_upd_scq; [intro; reflexivity | assumption]
+  | |- KW (upd_scq _ _ _) => apply KW_upd_scq; [let q := fresh "q" in intro q; first [reflexivity | (destruct (existsb _ (q_drains q)); reflexivity)] | assumption]
   | |- KW (upd_inv _ _ _) => apply KW_upd_inv; [cbn; intros; first [assumption | (apply in_or_app; left; assumption)] | assumption]
   | |- KW (set s_invs (fun l => l ++ [(_, new_inv _)]) _) => apply KW_invs_new; assumption
   | |- _ => (eapply KW_frame; [| |eassumption]); frame_eq
@@ -371,7 +371,7 @@ Ltac t_NQ :=
   intros;
   lazymatch goal with
   | |- NQ (upd_worker _ _ _) => apply NQ_upd_worker; [intro; first [right; reflexivity | left; reflexivity] | assumption]
-  | |- NQ (upd_scq _ _ _) => apply NQ_upd_scq; [intro; reflexivity | assumption]
+  | |- NQ (upd_scq _ _ _) => apply NQ_upd_scq; [let q := fresh "q" in intro q; first [reflexivity | (destruct (existsb _ (q_drains q)); reflexivity)] | assumption]
   | |- NQ (upd_inv _ _ _) => apply NQ_upd_inv; [cbn; intros; first [assumption | (eapply remove_nat_nonempty; eassumption)] | assumption]
   | |- NQ (set s_invs (fun l => l ++ [(_, new_inv _)]) _) => apply NQ_invs_new; assumption
   | |- _ => (eapply NQ_frame; [| |eassumption]); frame_eq
